@@ -81,6 +81,12 @@ def gen(rng, passes):
             info["pots"].append({"name": f"pot{i}@first", "pin": 14 + first, "vals": fvals})
         L.append(f"pot{i} = Potentiometer(\"A{apin}\")")
         vals = [rng.choice([0, 1, 511, 512, 1022, 1023, rng.randint(0, 1023)]) for _ in range(passes * 4 + 4)]
+        if rng.random() < 0.3:
+            # a busy-wait whose body is empty: the condition is still evaluated (one conversion per test) until it fails
+            j = rng.randint(0, 3)
+            vals[:j] = [rng.choice([0, 100, 599]) for _ in range(j)]
+            vals[j] = rng.choice([600, 1023, 777])
+            L += [f"mon.write(\"@AW:pot{i}:{j + 1}\")", f"while pot{i}.read() < 600:", "    pass", "mon.write(7)"]
         tapes["A"][str(14 + apin)] = vals
         info["pots"].append({"name": f"pot{i}", "pin": 14 + apin, "vals": vals})
     nus = rng.choice([0, 1, 1, 2])
@@ -283,7 +289,17 @@ def monitor(events, info, passes):
                 last = int(f[1])
             if kind == "SER":
                 text = trace.unesc(f[0])
-                if text == f"@AC:{p['name']}":
+                if text.startswith(f"@AW:{p['name']}:"):
+                    waiting = ("busy", int(text.rsplit(":", 1)[1]))
+                    fresh = 0
+                elif isinstance(waiting, tuple):
+                    need = waiting[1]
+                    waiting = False
+                    counts["pot_reads"] += need
+                    idx += need
+                    if fresh != need:
+                        problems.append(("pot-busy-wait", f"{p['name']}: {fresh} analogRead events in `while {p['name']}.read() < 600: pass`, the tape needs {need} tests"))
+                elif text == f"@AC:{p['name']}":
                     waiting = "comp"
                     fresh = 0
                 elif waiting == "comp":
